@@ -739,8 +739,9 @@ def _(p, ir, st_, ex, k1, k2, k3, ctx):
         scal = [str(a.name) for a in ir.args if a.type.is_real_scalar()]
         rhs = scal[k3 % len(scal)] if scal and k3 % 4 else ["0.0", "2.0"][k3 % 2]
     c = cursor_at(p, s.path)
-    g = c.before() if (k3 // 3) % 2 == 0 else c.after()
-    return (lambda: S.write_config(p, g, cfg, fld, rhs)), {"at": path_str(s.path), "cfg": f"{cn}.{fld}", "rhs": rhs}
+    side = "before" if (k3 // 3) % 2 == 0 else "after"
+    g = c.before() if side == "before" else c.after()
+    return (lambda: S.write_config(p, g, cfg, fld, rhs)), {"at": path_str(s.path), "side": side, "cfg": f"{cn}.{fld}", "rhs": rhs}
 
 
 @op("delete_config", 1, group="config")
